@@ -3,3 +3,6 @@ import Nutree.Model.Iter
 import Nutree.Spec.Iter
 import Nutree.Generated.Tables
 import Nutree.Properties.C06
+import Nutree.Model.Rel
+import Nutree.Spec.Rel
+import Nutree.Properties.C10
